@@ -1096,6 +1096,19 @@ int EGLPNUM_TYPENAME_ILLlib_addrows (
 			rval = EGLPNUM_TYPENAME_ILLlib_addrow (lp, B, rmatcnt[i], rmatind + rmatbeg[i],
 														rmatval + rmatbeg[i], rhs[i], sense[i], rng, 0);
 		}
+		if (rval && i > 0)
+		{
+			/* a failed call must not leave the first i rows behind */
+			int k, *undo = 0, tval;
+
+			ILL_SAFE_MALLOC (undo, i, int);
+			for (k = 0; k < i; k++)
+				undo[k] = lp->O->nrows - i + k;
+			tval = EGLPNUM_TYPENAME_ILLlib_delrows (lp, B, 0, i, undo, 0, 0);
+			ILL_IFFREE(undo);
+			if (tval)
+				QSlog("could not undo the rows added before the error");
+		}
 		CHECKRVALG (rval, CLEANUP);
 	}
 
@@ -2139,6 +2152,19 @@ int EGLPNUM_TYPENAME_ILLlib_addcols (
 			rval = EGLPNUM_TYPENAME_ILLlib_addcol (lp, B, cmatcnt[i], cmatind + cmatbeg[i],
 														cmatval + cmatbeg[i], obj[i], lower[i],
 														upper[i], 0, factorok);
+		}
+		if (rval && i > 0)
+		{
+			/* a failed call must not leave the first i columns behind */
+			int k, *undo = 0, tval, bok = 0;
+
+			ILL_SAFE_MALLOC (undo, i, int);
+			for (k = 0; k < i; k++)
+				undo[k] = lp->O->nstruct - i + k;
+			tval = EGLPNUM_TYPENAME_ILLlib_delcols (lp, B, i, undo, &bok);
+			ILL_IFFREE(undo);
+			if (tval)
+				QSlog("could not undo the columns added before the error");
 		}
 		CHECKRVALG (rval, CLEANUP);
 	}
